@@ -90,7 +90,7 @@ def curveToks2 (c : Dim2.Cubic Float) : List String :=
 def pCurve2 : P (Dim2.Cubic Float) := do return ⟨← pt2, ← pt2, ← pt2, ← pt2, ← nat⟩
 
 /-- chain oracle on the implementation's curves and points (2D lifted to 3D) -/
-def chainOracle (curves : List (Pt3 Float × Pt3 Float × Pt3 Float × Pt3 Float × Nat)) (closed : Bool)
+def chainOracleRaw (curves : List (Pt3 Float × Pt3 Float × Pt3 Float × Pt3 Float × Nat)) (closed : Bool)
     (pts : List (Pt3 Float)) (knots : List (Pt3 Float)) (lens : List Float) : List String := Id.run do
   let mut fails : List String := []
   let arr := curves.toArray
@@ -127,6 +127,15 @@ def chainOracle (curves : List (Pt3 Float × Pt3 Float × Pt3 Float × Pt3 Float
       if same3 (pts.getLastD ⟨0, 0, 0⟩) (pts.headD ⟨1, 1, 1⟩) && total > 0 then
         fails := fails ++ ["closed_chain_repeats_first_point"]
   return fails.eraseDups
+
+/-- a curve whose second control point sits on its end point has no tangent direction there: the
+next curve's first handle is `normalized(0)` = NaN (known finding) — label such histories -/
+def chainOracle (curves : List (Pt3 Float × Pt3 Float × Pt3 Float × Pt3 Float × Nat)) (closed : Bool)
+    (pts : List (Pt3 Float)) (knots : List (Pt3 Float)) (lens : List Float) : List String :=
+  let fails := chainOracleRaw curves closed pts knots lens
+  let n := curves.length
+  let degenerate := (curves.zipIdx.any fun ((_, _, c2, e, _), i) => same3 c2 e && (i + 1 < n || closed))
+  if degenerate then fails.map ("zero_length_incoming_handle:" ++ ·) else fails
 
 def hChain2 : Handler := fun args impl => do
   let ((first, adds, close), _) ← (do
